@@ -162,6 +162,56 @@ fn check_case(clauses: &[Clause], order: &[usize], store: &str, cn: &mut Counter
     r
 }
 
+use crate::props::c05::neighbours;
+
+/// two compilations on one fresh builder: `a`, then a formula one edit away from it. A builder that
+/// remembers compilations (a last-result slot, a component cache reached from the top) under a key
+/// that is too coarse confuses exactly such look-alikes.
+fn neighbour_pairs(a: &[Clause], order: &[usize], store: &str, cn: &mut Counters, rep: &mut Report) {
+    let nv = order.len();
+    for bcnf in neighbours(a, nv) {
+        rsdd::verif::set_table_capacity(8);
+        macro_rules! go {
+            ($b:expr) => {{
+                let b = $b;
+                rsdd::verif::set_table_capacity(0);
+                // (models and the false constant only; the full set of checks on a single compilation is
+                // what the other regimes do)
+                let mut r: Option<(String, String)> = None;
+                for (which, c) in [("the first formula", a), ("the second formula", &bcnf[..])] {
+                    let want = tt::of_cnf(c, nv);
+                    cn.compiles += 1;
+                    match guarded(|| b.compile_cnf_topdown(&to_cnf(c))) {
+                        Ok(d) => {
+                            let got = bdd_tt(d, nv);
+                            if got != want || d.is_false() != (want == 0) {
+                                r = Some(("wrong-models".into(), format!("{}: models {:#x} (false constant: {}), the CNF has {:#x}", which, got, d.is_false(), want)));
+                                break;
+                            }
+                        }
+                        Err(p) => {
+                            r = Some(("panic".into(), format!("{}: compile_cnf_topdown panicked: {}", which, p)));
+                            break;
+                        }
+                    }
+                }
+                r
+            }};
+        }
+        let r = if store == "standard" { go!(StandardDecisionNNFBuilder::new(order_of(order))) } else { go!(SemanticDecisionNNFBuilder::<{ primes::U64_LARGEST }>::new(order_of(order))) };
+        rep.transitions += 2;
+        rep.add_extra("look_alike_pairs", 1);
+        if let Some((key, what)) = r {
+            rep.violation(
+                format!("topdown:{}", key),
+                format!("one builder, order {:?}, store {}: compile {} then {}: {}", order, store, cnf_json(a), cnf_json(&bcnf), what),
+                json!({"kind": "topdown_pair", "cnf": cnf_json(a), "second": cnf_json(&bcnf), "order": order, "store": store}),
+            );
+            return;
+        }
+    }
+}
+
 /// long-lived builders: every CNF of the chunk compiled in one builder per (order, store)
 fn history_chunk(cnfs: &[Vec<Clause>], order: &[usize], store: &str, cn: &mut Counters, rep: &mut Report) {
     let nv = order.len();
@@ -327,6 +377,23 @@ pub fn run(ctx: &Ctx) -> Report {
                         }
                     }
                 }
+                // look-alike pairs (the two-clause families; every second order in quick)
+                // (a top-down compilation costs about a millisecond in this build, so the quick tier takes every
+                // sixth formula under one order and one store, rotating; the thorough tier takes all)
+                if c.len() <= 2 && nv <= 3 && nv >= 1 && !crate::core::disabled("lookalike") && (ctx.tier == Tier::Thorough || r.states % 6 == 1) {
+                    let perms = permutations(nv);
+                    for (oi, order) in perms.iter().enumerate() {
+                        if ctx.tier == Tier::Quick && oi != (r.states as usize / 6) % perms.len() {
+                            continue;
+                        }
+                        for (si, store) in ["standard", "semantic64"].into_iter().enumerate() {
+                            if ctx.tier == Tier::Quick && si != (r.states as usize / 6 / perms.len()) % 2 {
+                                continue;
+                            }
+                            neighbour_pairs(c, order, store, &mut cn, &mut r);
+                        }
+                    }
+                }
                 if r.n_violations > 16 {
                     break;
                 }
@@ -401,6 +468,10 @@ pub fn replay(_ctx: &Ctx, case: &Value) -> Report {
     let order: Vec<usize> = case["order"].as_array().map(|a| a.iter().filter_map(|x| x.as_u64()).map(|x| x as usize).collect()).unwrap_or_default();
     let store = case["store"].as_str().unwrap_or("standard");
     let mut cn = Counters::default();
+    if case["kind"].as_str() == Some("topdown_pair") {
+        neighbour_pairs(&clauses, &order, store, &mut cn, &mut rep);
+        return rep;
+    }
     if case["kind"].as_str() == Some("topdown_sparse") {
         let m: Vec<usize> = case["map"].as_array().map(|a| a.iter().filter_map(|x| x.as_u64()).map(|x| x as usize).collect()).unwrap_or_default();
         if m.len() == 3 {
